@@ -13,6 +13,11 @@ impl VarSet {
     { unimplemented!() }
 
     #[verifier::external_body]
+    pub fn is_empty(&self) -> (r: bool)
+        ensures r == (forall|v: VarLabel| !self.has(v)),
+    { unimplemented!() }
+
+    #[verifier::external_body]
     pub fn union(&self, other: &VarSet) -> (r: VarSet)
         ensures is_union(*self, *other, r),
     { unimplemented!() }
